@@ -63,6 +63,11 @@ type State struct {
 	symHeaps   *symHeapRec
 }
 
+type protectedLoc struct {
+	loc Term
+	ty  types.Type
+}
+
 // symHeapRec records the heap sorts read by the body of a defined spec function.
 type symHeapRec struct{ sorts []string }
 
@@ -125,6 +130,7 @@ type Gen struct {
 	specDepth  int
 	absCache   map[string]Term
 	hasHeavy   bool
+	protected  []protectedLoc
 	absHeaps   map[string]bool
 	sfDefs     map[string]*sfDef
 	noDefine   int
@@ -546,6 +552,17 @@ func (g *Gen) havocAllHeaps(st *State) {
 	for s := range g.heapInit {
 		g.heap(st, s)
 	}
+	// captured scalar variables of the closure under verification are not reachable
+	// from the arguments of an unknown callee: their values survive (assumption, listed)
+	var saved []Term
+	for _, p := range g.protected {
+		saved = append(saved, g.load(st, p.loc, p.ty))
+	}
+	defer func() {
+		for i, p := range g.protected {
+			g.store(st, p.loc, p.ty, saved[i])
+		}
+	}()
 	var keys []string
 	for s := range st.heaps {
 		keys = append(keys, s)
